@@ -37,7 +37,7 @@ func genOut(r *hx.Rand, pFound, pNil int) Out {
 
 func genTable(r *hx.Rand, pDefined int, del bool) Table {
 	t := Table{Defined: r.Intn(100) < pDefined}
-	t.Default = genOut(r, 80, 10)
+	t.Default = genOut(r, 88, 6)
 	n := r.Intn(3)
 	for i := 0; i < n; i++ {
 		t.Rows = append(t.Rows, Row{Id: hx.Pick(r, idPool), Out: genOut(r, 20, 40)})
@@ -88,7 +88,7 @@ func genWorld(r *hx.Rand) World {
 	names := append([]string{}, typeNames...)
 	hx.Shuffle(r, names)
 	names = names[:r.Range(1, 4)]
-	clean := r.Chance(1, 2) // a clean world has no failing completion: the deep success paths stay reachable
+	clean := r.Chance(3, 5) // a clean world has no failing completion: the deep success paths stay reachable
 	var w World
 	for _, name := range names {
 		t := TypeSpec{Name: name}
@@ -369,16 +369,16 @@ func bodyFor(r *hx.Rand, w *World, comps []string, fam int) (string, BodyLabel) 
 		id = comps[1]
 	}
 	if len(comps) == 3 {
-		if tgt, ok := relatedTarget(w, comps[0], comps[2]); ok && r.Intn(100) < 85 {
+		if tgt, ok := relatedTarget(w, comps[0], comps[2]); ok && r.Intn(100) < 90 {
 			ty, id = tgt.Type, tgt.Id
 		}
 	}
 	switch x := r.Intn(100); {
-	case x < 8:
+	case x < 5:
 		ty = hx.Pick(r, typeNames)
-	case x < 16:
+	case x < 10:
 		id = hx.Pick(r, idPool)
-	case x < 19:
+	case x < 12:
 		ty, id = id, ty
 	}
 	return genBody(r, fam, ty, id)
@@ -458,7 +458,54 @@ func genPath(r *hx.Rand, w *World, depth int) []string {
 	return comps
 }
 
+func famIndex(name string) int {
+	for i, f := range bodyFamilies {
+		if f.name == name {
+			return i
+		}
+	}
+	panic("unknown body family " + name)
+}
+
+// intentRequest draws a request that is meant to reach a handler: the method fits the depth, the
+// body fits the route and addresses the right resource (bodyFor still perturbs it sometimes).
+func intentRequest(r *hx.Rand, w *World) ReqSpec {
+	depth := hx.Pick(r, []int{1, 2, 2, 2, 3, 3, 3, 4, 4, 4, 4})
+	comps := genPath(r, w, depth)
+	q := ReqSpec{Path: "/" + strings.Join(comps, "/"), Accept: acceptVariants[0].lines, AcceptKind: "plain", QueryKind: "none"}
+	fam := hx.Pick(r, []string{"resource", "resource+attrs+rels", "resource+trailing", "resource-upper-keys", "resource-duplicate-data"})
+	switch depth {
+	case 1:
+		q.Method = "POST"
+	case 2:
+		q.Method = hx.Pick(r, []string{"GET", "GET", "PATCH", "PATCH", "DELETE"})
+	case 3:
+		q.Method = hx.Pick(r, []string{"GET", "GET", "PATCH"})
+	default:
+		q.Method = hx.Pick(r, []string{"GET", "PATCH", "POST", "DELETE"})
+		switch q.Method {
+		case "PATCH":
+			fam = hx.Pick(r, []string{"resource", "linkage-array", "linkage-empty-array", "data-null", "resource-no-id"})
+		case "POST", "DELETE":
+			fam = hx.Pick(r, []string{"linkage-array", "linkage-empty-array", "linkage-array-partial-ids", "data-null"})
+		}
+	}
+	if r.Intn(100) < 10 {
+		qv := hx.Pick(r, queryVariants[:4])
+		q.RawQuery, q.QueryKind = qv.raw, qv.kind
+	}
+	if r.Intn(100) < 10 {
+		av := hx.Pick(r, []acceptVariant{acceptVariants[3], acceptVariants[9], acceptVariants[10], acceptVariants[18]})
+		q.Accept, q.AcceptKind = av.lines, av.kind
+	}
+	q.Body, q.Label = bodyFor(r, w, comps, famIndex(fam))
+	return q
+}
+
 func genRequest(r *hx.Rand, w *World) ReqSpec {
+	if r.Intn(100) < 70 {
+		return intentRequest(r, w)
+	}
 	depth := hx.Pick(r, []int{0, 1, 1, 1, 2, 2, 2, 2, 2, 3, 3, 3, 3, 3, 4, 4, 4, 4, 4, 4, 5, 6})
 	comps := genPath(r, w, depth)
 	q := ReqSpec{Path: joinPath(r, comps)}
